@@ -182,6 +182,9 @@ func c03Render(events []int, names []string) (string, bool) {
 				b.WriteString("h = f;\n") // the function value escapes its scope
 			case 6:
 				b.WriteString("h(" + fresh() + ");\n")
+			case 8:
+				// several variables declared by one statement
+				b.WriteString(K["var"] + " " + names[0] + " = " + fresh() + ", " + names[1] + " = " + fresh() + ";\n")
 			case 7:
 				// a for header declaring several variables with one declaration list
 				b.WriteString(K["for"] + " (" + K["var"] + " " + names[0] + " = " + fresh() + ", " + names[1] + " = " + fresh() + "; " + True() + "; ) {\n")
@@ -199,7 +202,7 @@ func c03Run(c *Ctx) {
 	// the Bangla name ends in precomposed U+09DF, which NFC rewrites: bindings
 	// are keyed by spelling, so every operation must treat it consistently
 	names := []string{"ক\u09df", "a"}
-	nEv := 4*len(names) + 8
+	nEv := 4*len(names) + 9
 	maxLen := c.N(5, 6)
 	ev := make([]int, 0, maxLen)
 	var rec func()
@@ -301,6 +304,10 @@ func c03Handwritten() []string {
 		// for header scope shared by init/cond/incr/body; loop variable not visible after
 		Lines(For(Var("i", "0"), "i < 2", "i = i + 1", "{ "+Print("i")+" }"), For(Var("i", "5"), "i < 6", "i = i + 1", "{ "+Print("i")+" }"), Print("i")),
 		Lines(Var("i", "7"), For(Var("i", "0"), "i < 2", "i = i + 1", "{ "+Var("i", "50")+" "+Print("i")+" }"), Print("i")),
+		// a block whose only declarations are multi-variable ones is still a scope of its own
+		Lines(Var("n", "0"), While("n < 3", "{ n = n + 1; "+K["var"]+" a = n, b = n * 2; "+Print("a + b")+" }"), Print("n")),
+		Lines("{ "+K["var"]+" p = 1, q = 2; "+Print("p + q")+" }", Print(`"after"`), Print("p")),
+		Lines(Var("a", "100"), For(Var("i", "0"), "i < 2", "i = i + 1", "{ "+K["var"]+" a = i, b; "+Print("a")+" "+Print("b")+" }"), Print("a")),
 		// a for header may declare several variables: they live in the loop's own scope
 		Lines(Var("i", "100"), Var("n", "200"), For(K["var"]+" i = 0, n = 2;", "i < n", "i = i + 1", "{ "+Print("i + n")+" }"), Print("i"), Print("n")),
 		Lines(For(K["var"]+" i = 0, n = 2;", "i < n", "i = i + 1", "{ "+Print("i")+" }"), For(K["var"]+" i = 5, n = 6;", "i < n", "i = i + 1", "{ "+Print("i")+" }"), Print("n")),
@@ -350,7 +357,7 @@ func c03Handwritten() []string {
 func init() {
 	register(&CheckDef{
 		ID:   "C03",
-		Rule: "programs: every balanced history of length <=5 (quick) / <=6 (thorough) over 16 events {declare n = fresh, declare n, assign n, read n} x 2 colliding names + {open block, open for-header declaring the name, open for-header declaring both names in one declaration list, open function taking the name as parameter, close, call f}, each assigned value a unique integer; hand-written programs for every clause of the statement; seeded random larger programs (<=40 statements, depth <=3, names from a 3-name pool, closures, loops, planted faults). Each execution of the real interpreter (with scope hooks on) is compared with refborno's scope model on stdout, first diagnostic (category, name, line) and exit status, and the hook trace is checked by a model-free scope-chain invariant. Non-trivial = distinct program with >=1 shadowing declaration and >=1 read/assignment resolved at scope distance >=1 (counted by the model).",
+		Rule: "programs: every balanced history of length <=5 (quick) / <=6 (thorough) over 17 events {declare n = fresh, declare n, assign n, read n} x 2 colliding names + {open block, open for-header declaring the name, open for-header declaring both names in one declaration list, a declaration list binding both names, open function taking the name as parameter, close, call f}, each assigned value a unique integer; hand-written programs for every clause of the statement; seeded random larger programs (<=40 statements, depth <=3, names from a 3-name pool, closures, loops, planted faults). Each execution of the real interpreter (with scope hooks on) is compared with refborno's scope model on stdout, first diagnostic (category, name, line) and exit status, and the hook trace is checked by a model-free scope-chain invariant. Non-trivial = distinct program with >=1 shadowing declaration and >=1 read/assignment resolved at scope distance >=1 (counted by the model).",
 		Assumptions: []string{"declaring a name in a scope after a closure that mentions it was created beneath that scope is out of domain (the property's own exclusion), detected dynamically by the model", "redeclaring the function's own name or a parameter with ধরি at function-body level, and ফাংশন redeclaring an existing name in the same scope, are out of domain"},
 		Run:         c03Run,
 		Judge:       c03Judge,
@@ -424,6 +431,12 @@ func c03CertainFault(ev []int, names []string) bool {
 				}
 			case 7:
 				stack = append(stack, scope{"loop", map[string]bool{names[0]: true, names[1]: true}})
+			case 8:
+				if inFun == 0 && (stack[len(stack)-1].vars[names[0]] || stack[len(stack)-1].vars[names[1]]) {
+					return true
+				}
+				stack[len(stack)-1].vars[names[0]] = true
+				stack[len(stack)-1].vars[names[1]] = true
 			}
 		}
 	}
